@@ -97,7 +97,7 @@ R.contract("validate_message_avps", params={"msg": "Message"}, returns="List[Avp
                      "implies(has_avp_def(msg) and 0 <= j < len(result), "
                      "items(result)[j].code == items(missing(avp_defs(msg), msg))[j].avp_code and "
                      "items(result)[j]._vendor_id == items(missing(avp_defs(msg), msg))[j].vendor_id)")],
-           raises=[], props=["C08"],
+           raises=[], props=["C08", "C03"],
            note="exactly the (code, vendor) of the required rows whose attribute is None, in table order")
 R.loop("validate_message_avps", 0,
        invariants=[("count", "len(failed_avp) == len(missing(done, msg))"),
